@@ -87,7 +87,15 @@ def main():
     pus = pucat.pu_defs()
     configs = [("chain", "pup_hard"), ("chain", "pup_soft"), ("own-column", "pup_hard")] if tier == "quick" else [(p, m) for p in pus for m in ("pup_hard", "pup_soft")]
     jobs, keys = [], []
-    for sql in PROGRAMS:
+    import random as _random
+    rnd = _random.Random(seed() * 104729 + 5)
+    extra, seen = [], set(PROGRAMS)
+    while len(extra) < (8 if tier == "quick" else 80):
+        q = pucat.random_row_program(rnd)
+        if q not in seen:
+            seen.add(q)
+            extra.append(q)
+    for sql in list(PROGRAMS) + extra:
         for pun, mode in configs:
             jobs.append(dict(op="rewrite", mode=mode, tables=tabs, privacy_unit=pus[pun], dp=dict(epsilon=1.0, delta=1e-3), synthetic=False, sql=sql, render=True))
             keys.append((sql, pun, mode))
